@@ -377,8 +377,14 @@ impl Add<f64> for Epoch {
     type Output = Self;
 
     fn add(self, seconds: f64) -> Self {
+        // A whole number of seconds is added exactly: its product with 1e9 is not exact in binary64 beyond 2^53 ns.
+        let duration = if seconds.trunc() == seconds {
+            (seconds as i64) * Unit::Second
+        } else {
+            seconds * Unit::Second
+        };
         Self {
-            duration: self.duration + seconds * Unit::Second,
+            duration: self.duration + duration,
             time_scale: self.time_scale,
         }
     }
